@@ -11,6 +11,22 @@ def frame_of(obj):
     return f if isinstance(f, str) else f.value
 
 
+def is_2d(obj):
+    return hasattr(obj, "roi")
+
+
+def roi_of(obj):
+    """(x, y, w, h) of an image object."""
+    r = obj.roi
+    return (int(r.offset[0]), int(r.offset[1]), int(r.size[0]), int(r.size[1]))
+
+
+def score_value(r, attr):
+    """Value of one of a result's matching scores, None when that score does not exist for the object type."""
+    m = getattr(r, attr, None)
+    return None if m is None else m.value
+
+
 def pos_of(obj):
     p = obj.state.position
     return (float(p[0]), float(p[1]), float(p[2]))
@@ -46,6 +62,21 @@ def map_quat(obj, ego_ref):
 def filter_view(obj, ego_ref):
     import math
 
+    if is_2d(obj):
+        # image objects have no ego-relative position: only label, attributes, confidence and uuid can decide
+        return {
+            "label": label_of(obj),
+            "name": obj.semantic_label.name,
+            "attrs": list(obj.semantic_label.attributes or []),
+            "conf": float(obj.semantic_score),
+            "x": None,
+            "y": None,
+            "bev": None,
+            "npts": None,
+            "uuid": obj.uuid,
+            "roi": list(roi_of(obj)),
+            "cam": frame_of(obj),
+        }
     x, y, _ = ego_pos(obj, ego_ref)
     return {
         "label": label_of(obj),
@@ -79,6 +110,18 @@ def filter_params(kwargs):
 def obj_digest(obj):
     """Value digest of a DynamicObject for mutation checks (no identity)."""
     vis = obj.visibility
+    if is_2d(obj):
+        return (
+            int(obj.unix_time),
+            frame_of(obj),
+            roi_of(obj),
+            label_of(obj),
+            obj.semantic_label.name,
+            tuple(obj.semantic_label.attributes or []),
+            float(obj.semantic_score),
+            obj.uuid,
+            None if vis is None else (vis if isinstance(vis, str) else vis.value),
+        )
     return (
         int(obj.unix_time),
         frame_of(obj),
@@ -98,6 +141,6 @@ def obj_digest(obj):
 
 def frame_digest(frame):
     mats = []
-    for key, m in frame.transforms.items():
+    for key, m in (frame.transforms.items() if frame.transforms is not None else []):
         mats.append((str(key), tuple(round(float(v), 9) for v in m.matrix.reshape(-1))))
     return (int(frame.unix_time), str(frame.frame_name), tuple(obj_digest(o) for o in frame.objects), tuple(mats))
